@@ -10,12 +10,15 @@
    op:  add|sub|div|rem|and|or|xor|clone|divfloor|modfloor|diveuclid|remeuclid|divceil :<Y>
           with <Y> = u:<digits> | i:<s>:<digits>   (built with biguint_from_vec / from_biguint)
         shl:<dec>  shr:<dec>  setbit:<dec>:<0|1>  zero  one  assign:<s>:<words>
-        adds|subs|divs|rems :<32|64|128>:<dec>      neg  not  abs  signum
+        adds|subs|divs|rems|muls :<32|64|128>:<dec>      neg  not  abs  signum
+        mul:<Y>  gcd:<Y>  lcm:<Y>  pow:<dec u32>  sqrt  cbrt  nthroot:<dec u32>
    digits and words are comma separated little-endian hex.  Result: `ok <obj> <obj> ...`, one
    observation per step, `panic` as the last one when a step panics. *)
 open Io
 let p : Hist.hist_params =
-  { Hist.hp_as = Extracted.addsub; Hist.hp_div = Extracted.div; Hist.hp_bits = Extracted.bits }
+  { Hist.hp_as = Extracted.addsub; Hist.hp_div = Extracted.div; Hist.hp_bits = Extracted.bits;
+    Hist.hp_mul = Extracted.mul; Hist.hp_pow = Extracted.pgr_pow; Hist.hp_gcd = Extracted.pgr_gcd;
+    Hist.hp_roots = Extracted.pgr_roots; Hist.hp_radix = Extracted.radix }
 
 let sign_of = function
   | "-" -> Base.Minus | "0" -> Base.NoSign | "+" -> Base.Plus | s -> failwith ("bad sign " ^ s)
@@ -91,6 +94,14 @@ let parse_op (s : string) : Hist.op =
   | "not" -> Hist.ONot
   | "abs" -> Hist.OAbs
   | "signum" -> Hist.OSignum
+  | "mul" -> Hist.OMul (parse_operand rest)
+  | "muls" -> let (w, v) = cut rest in Hist.OMulS (width w, z_of_dec v)
+  | "pow" -> Hist.OPow (z_of_dec rest)
+  | "sqrt" -> Hist.OSqrt
+  | "cbrt" -> Hist.OCbrt
+  | "nthroot" -> Hist.ONthRoot (z_of_dec rest)
+  | "gcd" -> Hist.OGcd (parse_operand rest)
+  | "lcm" -> Hist.OLcm (parse_operand rest)
   | _ -> failwith ("bad op " ^ s)
 
 let parse_ops (s : string) : Hist.op list =
@@ -125,11 +136,10 @@ let model_pair = function
   | [kind; ca; ha; cb; hb] ->
     (match Hist.history p (parse_ctor kind ca) (parse_ops ha), Hist.history p (parse_ctor kind cb) (parse_ops hb) with
      | Base.Ret a, Base.Ret b ->
-       (match Hist.observe_pair a b with
+       (match Hist.observe_pair p a b with
         | Base.Ret o ->
           line ([b2s o.Hist.po_eq; res_cmp o.Hist.po_cmp; b2s o.Hist.po_hash]
                 @ Stdlib.List.map b2s o.Hist.po_exports
-                @ [b2s o.Hist.po_eq; b2s o.Hist.po_eq]      (* text in radix 10 / 16: equal objects print alike (no text model yet) *)
                 @ [b2s o.Hist.po_max; b2s o.Hist.po_min; b2s o.Hist.po_nosign_a; b2s o.Hist.po_nosign_b;
                    res_obj a; res_obj b])
         | e -> obs (fun _ -> "") e)
@@ -145,7 +155,6 @@ let spec_pair = function
        let same = b2s o.SpecHist.spo_same in
        line ([b2s o.SpecHist.spo_eq; res_cmp o.SpecHist.spo_cmp; same]
              @ Stdlib.List.map b2s (SpecHist.sexports_eq k a b)
-             @ [same; same]
              @ [b2s o.SpecHist.spo_max; b2s o.SpecHist.spo_min; "n:1"; "n:1"; enc_obj k a; enc_obj k b])
      | (Base.Ret _, e) | (e, _) -> obs (fun _ -> "") e)
   | _ -> failwith "arity"
